@@ -128,6 +128,10 @@ def native_reset(res, tier, broken):
             rc, out = p.returncode, p.stdout.decode("utf-8", "replace")
         except subprocess.TimeoutExpired:
             rc, out = -999, "timeout"
+        if rc == 2:
+            # the program's own set-up did not complete in time (machine stalled): no verdict from this run
+            res.add_cov(native_set_then_reset_inconclusive=out.strip()[-200:])
+            continue
         if rc != 0:
             res.violation("a set wakes every waiter blocked before it (native run): " + (out.strip().split("\n")[-1][:400] or "exit %s" % rc),
                           {"native": "nat_evreset", "exit": rc, "output": out[-1500:]})
